@@ -691,14 +691,6 @@ def update_counters(state, style):
             sibling_scopes.add(name)
         counter_values.setdefault(name, []).append(value)
 
-    for name, value in style['counter_set']:
-        values = counter_values.setdefault(name, [])
-        if not values:
-            assert name not in sibling_scopes
-            sibling_scopes.add(name)
-            values.append(0)
-        values[-1] = value
-
     counter_increment = style['counter_increment']
     if counter_increment == 'auto':
         # 'auto' is the initial value but is not valid in stylesheet:
@@ -716,6 +708,15 @@ def update_counters(state, style):
             sibling_scopes.add(name)
             values.append(0)
         values[-1] += value
+
+    # Counters are reset, then incremented, then set
+    for name, value in style['counter_set']:
+        values = counter_values.setdefault(name, [])
+        if not values:
+            assert name not in sibling_scopes
+            sibling_scopes.add(name)
+            values.append(0)
+        values[-1] = value
 
 
 def is_whitespace(box, _has_non_whitespace=re.compile('\\S').search):
